@@ -417,15 +417,82 @@ def handle_validation(ctx, v, events, kind, script_of=None, max_samples=3):
         ctx.log("(T) %s: %d traces / %d events accepted in %.1fs (%d known-finding traces)" % (
             kind, len(traces), v.n, v.wall, len(v.known)))
         return True
-    line = v.hw  # the event that could not be consumed
-    tr, off = trace_at(events, line)
+    line = v.hw  # 1-based index of the event that could not be consumed
+    idx = -1
+    for i, (start, _) in enumerate(traces):
+        if start + 1 <= line:
+            idx = i
+    if idx < 0:
+        tr, off = events, line - 1
+    else:
+        tr, off = traces[idx][1], line - 1 - traces[idx][0]
     what = "%s: specification cannot explain event #%d of a recorded trace: %s" % (
-        kind, off, json.dumps(tr[off]) if 0 <= off < len(tr) else "?")
-    rep = {"kind": kind, "trace": tr, "failing_event_index": off, "tlc": (v.mismatch[1] if v.mismatch else None)}
-    if script_of:
-        rep["script"] = script_of(tr)
+        kind, off, (json.dumps(tr[off])[:400] if 0 <= off < len(tr) else "?"))
+    rep = {"kind": kind, "trace": tr[:off + 1], "failing_event_index": off, "tlc": (v.mismatch[1] if v.mismatch else None)}
+    if script_of and idx >= 0:
+        rep["script"] = script_of(idx)
     report_violation(ctx, what, rep)
     return False
+
+
+def run_batch(ctx, *, tag, scripts, pkg_rel, pkgname, files, test, trace_module, nontrivial=None, race=False,
+              deque=False, go_timeout=900, tlc_timeout=1800, extra_env=None, trace_cfg=None, xss=None):
+    """Execute scripts (one JSON object each) on the real code through an injected Go test, then validate the recorded
+    ndjson trace (one `reset` event per script, in script order) with a Trace_* module.  Returns the event list or None."""
+    if not scripts:
+        return []
+    safe = re.sub(r"[^A-Za-z0-9_.-]", "_", tag)
+    inp = ctx.path("%s-%s.in" % (ctx.pid, safe))
+    outp = ctx.path("%s-%s.trace" % (ctx.pid, safe))
+    write_ndjson(inp, scripts)
+    ov = overlay(ctx, harness_files(pkg_rel, pkgname, files), name="overlay-%s.json" % safe)
+    env = {"VERIF_IN": inp, "VERIF_OUT": outp, "VERIF_SEED": ctx.seed}
+    if extra_env:
+        env.update(extra_env)
+    rc, out = go_test(ctx, pkg_rel, ov, "^%s$" % test, env=env, race=race, timeout=go_timeout)
+    if "VERIF-INFRA" in out:
+        raise Infra("harness error in %s:\n%s" % (test, out[-2500:]))
+    events = read_ndjson(outp) if os.path.exists(outp) else []
+    ctx.cov["evaluations"] += len(scripts)
+    if rc != 0:
+        # the real code panicked / deadlocked / raced while executing a script: the culprit is the script whose
+        # reset event is the last one flushed to the trace
+        nres = sum(1 for e in events if e.get("a") == "reset")
+        culprit = scripts[nres - 1] if 0 < nres <= len(scripts) else None
+        if "DATA RACE" in out:
+            what = "%s: Go race detector report while executing a script" % tag
+        elif "panic:" in out or "fatal error:" in out:
+            what = "%s: the real code panicked while executing a script" % tag
+        elif "test timed out" in out:
+            what = "%s: the real code did not return (test timed out) while executing a script" % tag
+        else:
+            what = "%s: harness-detected failure while executing a script" % tag
+        m = re.search(r"(panic:.*|fatal error:.*|WARNING: DATA RACE.*|--- FAIL.*|VERIF-FAIL.*)", out)
+        report_violation(ctx, what + (": " + m.group(1)[:300] if m else ""),
+                         {"kind": tag, "script": culprit, "go_output": out[-6000:]})
+        return None
+    v = validate(ctx, trace_module, outp, cfg=trace_cfg, deque=deque, timeout=tlc_timeout, xss=xss)
+    traces = split_traces(events)
+
+    handle_validation(ctx, v, events, tag, lambda i: scripts[i] if i < len(scripts) else None)
+    if nontrivial is not None:
+        seen = set()
+        for _, evs in traces:
+            if nontrivial(evs):
+                seen.add(hashlib.sha1(json.dumps(evs, sort_keys=True).encode()).hexdigest())
+        ctx.cov["distinct_nontrivial"] += len(seen)
+    if traces:
+        add_samples(ctx, [traces[len(traces) // 2][1][:16]], 1)
+    return events
+
+
+def replay_scripts(path):
+    rep = json.load(open(path))
+    if rep.get("script"):
+        return [rep["script"]]
+    if rep.get("scripts"):
+        return rep["scripts"]
+    raise Infra("replay file %s has no script" % path)
 
 
 def add_samples(ctx, items, k=3):
@@ -461,9 +528,10 @@ def finish(ctx, level, rule, extra_cov=None, exhaustive=False):
         "assumptions": ctx.assumptions, "wall_s": round(time.time() - ctx.t0, 1), "violations": len(ctx.violations),
         "notes": ctx.notes,
     }
-    os.makedirs(os.path.join(VERIF, "evidence"), exist_ok=True)
-    with open(os.path.join(VERIF, "evidence", "%s.json" % ctx.pid), "w") as f:
-        json.dump(ev, f, indent=1)
+    if not getattr(ctx, "replay_mode", False):
+        os.makedirs(os.path.join(VERIF, "evidence"), exist_ok=True)
+        with open(os.path.join(VERIF, "evidence", "%s.json" % ctx.pid), "w") as f:
+            json.dump(ev, f, indent=1)
     if ctx.violations:
         for what, p in ctx.violations[:5]:
             print("VIOLATION property=%s replay=%s" % (ctx.pid, p), flush=True)
